@@ -7,7 +7,8 @@ import c16_util as cu
 PROP = "C16"
 RULE = ("every mark graph MARKS(n) (each pair one of none,->,<-,<->,--,o-o,o->,<-o), n<=3, plus a seeded sample of MARKS(4) (150 quick / "
         "6000 thorough); on each graph every ordered pair (s,t) and every target set of 1-2 nodes not containing s, "
-        "cutoff in {None,0..n}; target passed as a node, set, frozenset, generator or dict-keys view; is_semi_directed_path on every "
+        "cutoff in {None,0..n} (for node targets also -1, n+1, n+3) as a Python int and as numpy.int64 / int32 / intp (expected: the model "
+        "on the integer value; negative = 0); target passed as a node, set, frozenset, generator or dict-keys view; is_semi_directed_path on every "
         "duplicate-free node sequence and on non-paths (repeats, absent node, empty); both ancestry sets of every node; seeded random "
         "MARKS graphs n<=7 and dense possibly-directed graphs n=5..7 with sampled queries. REPEAT stream (every graph n<=3 with an "
         "edge, 1/3 of the n=4 sample, 1/4 of the random ones): the PAG is built for a neighbour graph (one pair re-marked or one edge "
@@ -38,18 +39,27 @@ TECHNIQUE = "Coq proof (model = spec, unbounded, all clauses) + extracted-model 
 SPOT_N = 12
 
 
+# cutoff argument types: 0 Python int, 1 numpy.int64, 2 numpy.int32, 3 numpy.intp (a query's 5th field; [] = None has no type)
+CUT_TYPES = 4
+
+
 def all_queries(n):
+    """query = [s, targets, [] | [cutoff], target kind, cutoff type]; cutoffs: None, 0..n as Python ints for every target kind, and for
+    node targets also -1, n+1, n+3 and every value -1..n+3 as a numpy integer (expected: the model on the integer VALUE)"""
     qs = []
     cuts = [[]] + [[k] for k in range(n + 1)]
+    wide = [[k] for k in (-1, n + 1, n + 3)]
     for s in range(n):
         others = [v for v in range(n) if v != s]
         for t in range(n):                       # includes t == s (must yield nothing)
-            for c in cuts:
-                qs.append([s, [t], c, 0])        # 0: target passed as a node
+            for c in cuts + wide:
+                qs.append([s, [t], c, 0, 0])     # target passed as a node, cutoff a Python int
+            for j, k in enumerate(range(-1, n + 4)):
+                qs.append([s, [t], [k], 0, 1 + (j + s + t) % 3])
         for r in (1, 2):
             for T in itertools.combinations(others, r):
                 for c in cuts:
-                    qs.append([s, list(T), c, 1 + (len(qs) % 4)])  # 1 set, 2 frozenset, 3 generator, 4 dict keys view
+                    qs.append([s, list(T), c, 1 + (len(qs) % 4), len(qs) % CUT_TYPES])  # 1 set, 2 frozenset, 3 generator, 4 dict keys
     return qs
 
 
@@ -85,8 +95,8 @@ def random_queries(rng, n, nq=25, nps=40):
             T, asset = [rng.choice(others)], 0
         else:
             T, asset = sorted(rng.sample(others, rng.choice([1, 2, 3]))), rng.choice([1, 2, 3, 4])
-        c = [] if rng.random() < 0.3 else [rng.randint(0, n)]
-        qs.append([s, T, c, asset])
+        c = [] if rng.random() < 0.3 else [rng.choice([rng.randint(0, n), rng.randint(-1, n + 3), n - 1, n, n + 2])]
+        qs.append([s, T, c, asset, rng.randrange(CUT_TYPES)])
     ps = [rng.sample(range(n), rng.randint(1, n)) for _ in range(nps)]
     return qs, ps
 
@@ -130,7 +140,7 @@ def gen_cases(tier, rng):
         n = rng.randint(5, 7)
         g = dense_graph(rng, n)
         qs, ps = random_queries(rng, n, nq=12, nps=30)
-        qs = [q if q[2] else [q[0], q[1], [rng.randint(1, 4)], q[3]] for q in qs] if n == 7 else qs  # bound the path count
+        qs = [q if q[2] and q[2][0] <= 4 else [q[0], q[1], [rng.randint(1, 4)], q[3], q[4]] for q in qs] if n == 7 else qs  # bound the path count
         c = {"kind": "dense", "g": g, "qs": qs, "ps": ps}
         if i % 4 == 0:
             c["rep"] = rng.randrange(1 << 30)
@@ -139,7 +149,8 @@ def gen_cases(tier, rng):
 
 
 def encode(case):
-    return [0, gr.enc(case["g"]), [[q[0], q[1], q[2]] for q in case["qs"]], case["ps"]]
+    # the model gets the integer value; a negative cutoff behaves like 0 (cutoff < 1: nothing)
+    return [0, gr.enc(case["g"]), [[q[0], q[1], [max(0, k) for k in q[2]]] for q in case["qs"]], case["ps"]]
 
 
 def decode(case, v):
@@ -161,14 +172,24 @@ def as_target(T, asset, lab):
     return {lab(t) for t in T}
 
 
+def as_cutoff(c, ctype):
+    if not c:
+        return None
+    if ctype == 0:
+        return c[0]
+    import numpy as np
+    return (np.int64, np.int32, np.intp)[ctype - 1](c[0])
+
+
 def run_queries(case, P, lab, inv):
     from pywhy_graphs.algorithms import (all_semi_directed_paths, is_semi_directed_path, possible_ancestors,
                                          possible_descendants)
     present = set(case["g"]["V"])
     lab2 = lambda v: lab(v) if v in present else ("absent", v)  # noqa: E731
     paths = []
-    for s, T, c, asset in case["qs"]:
-        cutoff = c[0] if c else None
+    for q in case["qs"]:
+        s, T, c, asset = q[:4]
+        cutoff = as_cutoff(c, q[4] if len(q) > 4 else 0)
         try:
             res = sorted([inv(x) for x in p] for p in all_semi_directed_paths(P, lab(s), as_target(T, asset, lab), cutoff=cutoff))
         except Exception as e:  # noqa
